@@ -90,6 +90,10 @@ func (a *LabelFilterPlanner) makeFilter(filter *logql_parser.LabelFilter) (func(
 
 func (a *LabelFilterPlanner) stringSimpleFilter(filter *logql_parser.SimpleLabelFilter,
 ) (func(map[string]string) bool, error) {
+	if filter.StrVal == nil {
+		// `| n = 5`, `| n =~ 5`: refused like on the ClickHouse path (it used to dereference the nil string value)
+		return nil, fmt.Errorf("illegal expression: %s", filter.String())
+	}
 	strVal, err := filter.StrVal.Unquote()
 	if err != nil {
 		return nil, err
